@@ -43,7 +43,7 @@ func (g *Engine) registerIntrinsics() {
 		I["vx:"+name] = func(e *Exec, fn *ssa.Function, a []Value, pos token.Pos) Value {
 			if e.spec > 0 {
 				switch name {
-				case "vxSameObject", "vxOffsetIn", "vxIsNilSlice":
+				case "vxSameObject", "vxOffsetIn", "vxIsNilSlice", "vxThorough", "vxKnownOpen":
 				default:
 					panic(specAbort{"vx call"})
 				}
@@ -144,6 +144,8 @@ func (g *Engine) registerIntrinsics() {
 		ms := e.mutex[mutexKey(p)]
 		return e.tb.Bool(ms != nil && (ms.held > 0 || ms.readers > 0))
 	})
+	vx("vxThorough", func(e *Exec, a []Value, pos token.Pos) Value { return e.tb.Bool(e.eng.cfg.Tier == "thorough") })
+	vx("vxKnownOpen", func(e *Exec, a []Value, pos token.Pos) Value { return e.tb.Bool(e.eng.cfg.Known[e.argStr(a[0])]) })
 	vx("vxNote", func(e *Exec, a []Value, pos token.Pos) Value { return nil })
 	// UF primitives
 	vx("vxSHA1", func(e *Exec, a []Value, pos token.Pos) Value {
@@ -192,7 +194,10 @@ func (g *Engine) registerIntrinsics() {
 
 	// ---- sync ----
 	I["(*sync.Mutex).Lock"] = func(e *Exec, fn *ssa.Function, a []Value, pos token.Pos) Value { e.lock(a[0], false, pos); return nil }
-	I["(*sync.Mutex).Unlock"] = func(e *Exec, fn *ssa.Function, a []Value, pos token.Pos) Value { e.unlock(a[0], false, pos); return nil }
+	I["(*sync.Mutex).Unlock"] = func(e *Exec, fn *ssa.Function, a []Value, pos token.Pos) Value {
+		e.unlock(a[0], false, pos)
+		return nil
+	}
 	I["(*sync.Mutex).TryLock"] = func(e *Exec, fn *ssa.Function, a []Value, pos token.Pos) Value {
 		e.unsupported("TryLock")
 		return nil
